@@ -1,11 +1,26 @@
 (** C14 - Collapsing addresses preserves the covered address set exactly.
     Networks are (address, prefix length); [strict_net] = no host bits, length <= 32 (what every
-    contiguous address yields).  Termination of the Python work-list loop is not a theorem here:
-    the Gallina loop runs on fuel (2*(sum of (len+1))+4) and every theorem is stated for the
-    returning case; agreement on termination is checked by the correspondence. *)
+    contiguous address yields).  The Gallina loop runs on fuel; [C14_terminates] proves that the
+    fuel is never exhausted (the work-list loop terminates: the potential 2*sum(len+1) minus
+    "the front element is a /0" decreases in every iteration), so [C14_total] states the
+    property without a "returning case" proviso. *)
 From V Require Import base.Prelude gen.Tables model.Cfg model.Wildcard model.Addr model.Collapse
   proofs.WildProofs proofs.AddrProofs proofs.CollapseProofs.
 Local Open Scope N_scope.
+
+(** the loop always returns, and what it returns is right *)
+Theorem C14_terminates : forall nets, Forall strict_net nets -> collapse_nets nets <> None.
+Proof. exact collapse_terminates. Qed.
+
+Theorem C14_total : forall nets, Forall strict_net nets ->
+  exists r, collapse_nets nets = Some r /\ (forall x, covered r x <-> covered nets x)
+            /\ (length r <= length nets)%nat /\ net_sorted r.
+Proof.
+  intros nets HS. destruct (collapse_nets nets) as [r|] eqn:E.
+  - exists r. split; [reflexivity|]. split; [now apply (collapse_set nets r)|].
+    split; [now apply (collapse_count nets r)|now apply (collapse_sorted nets r)].
+  - exfalso. now apply (collapse_terminates nets HS).
+Qed.
 
 (** none gained, none lost: an address is covered by the result iff it is covered by the input *)
 Theorem C14_set : forall nets r,
